@@ -30,7 +30,8 @@ def episode(ctx, case, nsteps=0):
     """Replay the recorded steps of `case`; then (when nsteps > 0) generate further steps on the fly."""
     cls = CLASSES[case['cls']]
     m = case['init']
-    s = mk(cls, m)
+    with util.options(lsb0=False):
+        s = util.mk_via(cls, m, case.get('made', 'bin'))       # what a mutator does cannot depend on how the receiver came to hold its bits
     steps = case['steps']
     i = 0
     watched = []          # operands handed to earlier steps: [object, expected bits, op that used it]
@@ -114,7 +115,7 @@ def run(ctx):
         L = ctx.rng.choice(lengths)
         nsteps = ctx.rng.randint(4, 12) if ctx.quick else ctx.rng.randint(4, 40)
         case = {'cls': ctx.rng.choice(util.MUTABLE), 'init': util.content(ctx.rng, L), 'steps': [],
-                'oba': ctx.rng.random() < 0.15}
+                'oba': ctx.rng.random() < 0.15, 'made': ctx.rng.choice(util.MADE_ROUTES)}
         ctx.run_case(lambda c, k: episode(c, k, nsteps), case)
         if i % 499 == 0:
             ctx.sample({'cls': case['cls'], 'init': case['init'][:64], 'steps': case['steps'][:6]})
